@@ -870,6 +870,57 @@ def run(ctx):
                     r.check(why is not None, "%s%s/%s#%d/%s" % (own + "::" if own else "", fn, kind.split(":")[0], k_, desc.split("(")[0][:20]), b.loc(line), "%s: %s" % (kind, why), "potential panic on parser input: %s %s" % (kind, desc[:80]))
         r.check(nb >= 150, "scope/bodies", "-", "%d function bodies audited" % nb, "only %d bodies in scope: the module paths no longer match" % nb)
 
+    with ctx.rule("C09.R11", "T9+T6", "nom's finish() is applied only where the parser cannot have answered Incomplete", floor=3) as r:
+        # `Finish::finish` panics on Err(Incomplete). A streaming parser answers Incomplete whenever the input ends inside (or right at the start of) a
+        # token - an unterminated string, an empty text - so a result that goes into finish() must come from complete-input parsers only, from a parser
+        # wrapped in nom::combinator::complete, or from a branch that has already set Incomplete aside.
+        nfin = 0
+        for b in rc.all_bodies():
+            if "::tests" in b.defpath or "swimos_recon::recon_parser" not in b.defpath:
+                continue
+            for c in b.calls:
+                if c.name != "finish" or "nom" not in ((c.trait or "") + (c.defpath or "")):
+                    continue
+                nfin += 1
+                ctx.saw(b)
+                key = "%s/finish" % b.defpath.split("recon_parser::")[-1].split("::{")[0]
+                # set aside before: the result was matched and this is not the Incomplete branch / or it is the handling of Incomplete by a second parser
+                g = dom_guards(b, c.block)
+                # the parser that produced the value
+                prod = [x[1] for x in b.sources(c.args[0], stop_at_calls=True) if x[0] == "call"]
+                parsers = []
+                for pc in prod:
+                    if pc.name in ("call", "call_mut", "call_once", "parse") and pc.args:
+                        parsers.extend(x[1] for x in b.sources(pc.args[0], stop_at_calls=True) if x[0] == "call")
+                if any((pc.defpath or "").endswith("nom::combinator::complete") for pc in parsers):
+                    r.ok(key, c.loc(), "the parser is wrapped in nom::combinator::complete")
+                    continue
+                # everything the producing function can run: itself, its closures, and what they reference inside the crate
+                # (what is handed to `complete(..)` cannot let an Incomplete out, whatever it is built from: such references are not followed)
+                seen_, edges_, work_ = {b.defpath: None}, [], [b]
+                while work_:
+                    x_ = work_.pop()
+                    for d_, w_ in refs(x_) + [(d2, False) for d2 in bodies if d2.startswith(x_.defpath + "::{closure")]:
+                        edges_.append((x_.defpath, d_, w_))
+                        if not w_ and d_ in bodies and d_ not in seen_:
+                            seen_[d_] = x_.defpath
+                            work_.append(bodies[d_])
+                # a parser called through a trait object / generic parameter (`p.parse(..)`): the implementations in this crate
+                impls = [d for d in bodies if d.endswith("::parse") and " as " in d and "Parser" in d and any(pc.name == "parse" for pc in prod)]
+                if impls:
+                    fin_impl = [d for d in impls if "Final" in d]
+                    guarded = any(d.startswith("disc(") and l == "Incomplete" for d, l, _ in g)
+                    if guarded and fin_impl:
+                        # `Err(Incomplete) => final_parser.parse(..).finish()`: the final-segment parser is audited by C09.R3b (never asks for more)
+                        r.ok(key, c.loc(), "the end-of-input parser (audited by C09.R3b) answers for the Incomplete of the incremental one")
+                        continue
+                sbad = sorted({(a, d) for a, d, w in edges_ if a in seen_ and streaming(d) and not w})
+                r.check(not sbad, key, c.loc(), "no streaming parser can feed this finish()",
+                        "%s applies finish() to the result of a parser built from the streaming parser %s (in %s): on an input that ends inside or before the token - an empty text, an unterminated string - "
+                        "the parser answers Incomplete and finish() panics" % (b.defpath.split("recon_parser::")[-1], sbad[0][1].split("::")[-1] if sbad else "", sbad[0][0].split("recon_parser::")[-1] if sbad else ""))
+        if nfin < 3:
+            raise AnchorMissing("expected the finish() sites of the Recon parser (found %d)" % nfin)
+
     with ctx.rule("C09.R8", "T4", "the printers write a float in a form the tokenizer reads back as a float", floor=2) as r:
         # `{}` (Display) prints 2.0 as `2`, which the tokenizer reads as an integer: a float must reach the output through the exponent form ({:e})
         # or ryu's shortest representation (always with `.` or `e`), never through a writer that only knows Display
